@@ -207,7 +207,7 @@ class PythonConstructRenderer:
         # Write Enum members
         for member_name, value in values:
             if base_type == "str":
-                writer.write_line(f'{member_name} = "{value}"')
+                writer.write_line(f"{member_name} = {json.dumps(str(value), ensure_ascii=False)}")
             else:  # int
                 writer.write_line(f"{member_name} = {value}")
 
